@@ -333,7 +333,100 @@ def exec_case(ctx, case: Dict[str, Any]) -> None:
                        "outcome": shape, "writes": [e["item"] for e in sends]})
 
 
+def exec_retry(ctx, case: Dict[str, Any]) -> None:
+    """A first attempt times out; its answer arrives late; the caller retries on the same streams and the server
+    answers the retry in its own way.  The retry's outcome must be decided by the answer to the retry alone."""
+    from chuk_mcp.protocol.messages.initialize.send_messages import (send_initialize,
+                                                                      send_initialize_with_client_tracking)
+    from chuk_mcp.protocol.messages.json_rpc_message import parse_message
+    from chuk_mcp.protocol.types.errors import VersionMismatchError
+    import importlib
+    SC = importlib.import_module("chuk_mcp.transports.stdio.stdio_client")
+    from chuk_mcp.transports.stdio.parameters import StdioParameters
+    lst, second = case["supported"], case["second"]
+
+    async def main():
+        pipe = Pipe()
+        loop = asyncio.get_running_loop()
+        client = SC.StdioClient(StdioParameters(command="never-started")) if case["tracked"] else None
+        outs = []
+
+        async def server():
+            r1 = await pipe.srv_recv.receive()
+            await vsleep_until(TIMEOUT + 0.1)
+            # the answer to the abandoned first attempt: a perfectly acceptable version
+            pipe.srv_send.send_nowait(parse_message(build_answer({"kind": "version", "v": lst[0]}, r1.id)))
+            while True:
+                r2 = await pipe.srv_recv.receive()
+                if getattr(r2, "method", None) == "initialize":
+                    break
+            if second["kind"] != "silence":
+                await asyncio.sleep(0.1)
+                pipe.srv_send.send_nowait(parse_message(build_answer(second, r2.id)))
+
+        st = asyncio.create_task(server(), name="server")
+        kw = dict(timeout=TIMEOUT, supported_versions=list(lst), preferred_version=None)
+        for attempt in (1, 2):
+            if attempt == 2:
+                await vsleep_until(TIMEOUT + 0.2)
+            try:
+                if case["tracked"]:
+                    res = await send_initialize_with_client_tracking(pipe.read, pipe.write, client, **kw)
+                else:
+                    res = await send_initialize(pipe.read, pipe.write, **kw)
+                outs.append(("return", res))
+            except BaseException as e:  # noqa
+                if isinstance(e, (KeyboardInterrupt, SystemExit)):
+                    raise
+                outs.append(("raise", e))
+        await asyncio.sleep(0.5)
+        st.cancel()
+        trace = pipe.trace
+        binfo = client.get_batching_info() if client is not None else None
+        pipe.close()
+        return outs, trace, binfo
+
+    try:
+        (outs, trace, binfo), _ = run_virtual(main, max_iterations=100_000)
+    except HangDetected as e:
+        ctx.violation("hang", f"retry: {e}", case)
+        return
+    ctx.count("handshakes", 2)
+    ctx.count("retry_sequences")
+    sends = [e for e in trace.events if e["op"] == "send"]
+    notes = [e for e in sends if getattr(e["obj"], "method", None) == "notifications/initialized"]
+    (k1, v1), (k2, v2) = outs
+    if k1 != "raise" or not isinstance(v1, TimeoutError):
+        ctx.violation("silence_wrong_exception", f"first attempt (server silent) ended with {v1!r}", case)
+    ok_version = second["kind"] == "version" and second["v"] in lst
+    if ok_version:
+        if k2 != "return" or getattr(v2, "protocolVersion", None) != second["v"]:
+            ctx.violation("returned_version_differs", f"retry answered with listed version {second['v']!r}; the call gave {v2!r} "
+                          f"(the late answer to the first attempt said {lst[0]!r})", case)
+        if len(notes) != 1:
+            ctx.violation("initialized_count", f"{len(notes)} initialized notifications after a successful retry", case)
+        if case["tracked"] and binfo["protocol_version"] != second["v"]:
+            ctx.violation("tracked_batching_mode", f"tracked client reports {binfo} after the retry agreed on {second['v']!r}", case)
+    else:
+        if k2 == "return":
+            ctx.violation("stale_answer_accepted", f"the retry was answered with {second!r} yet the call returned "
+                          f"{getattr(v2, 'protocolVersion', v2)!r} - the late answer to the abandoned first attempt", case)
+        if notes:
+            ctx.violation("initialized_after_failure", f"{len(notes)} initialized notifications although the retry failed", case)
+        if case["tracked"] and binfo["protocol_version"] is not None:
+            ctx.violation("tracked_version_set_on_failure", f"tracked client has {binfo} after a failed retry", case)
+    ctx.record(case, shape=[k1, k2, len(notes)], nontrivial=True, cls=f"retry:{second['kind']}",
+               sample={"case": case, "outcomes": [k1, type(v1).__name__, k2, type(v2).__name__]})
+
+
 def run(ctx):
+    for lst in (["2025-06-18", "2025-03-26"], ["2025-03-26"], ["2024-11-05", "2025-06-18", "2099-01-01"]):
+        for second in ({"kind": "version", "v": "1999-01-01"}, {"kind": "version", "v": lst[-1]}, {"kind": "error", "code": -32600, "msg": "no"},
+                       {"kind": "error", "code": -32603, "msg": "boom"}, {"kind": "silence"}, {"kind": "malformed", "what": "missing_version"}):
+            for tracked in (False, True):
+                case = {"retry": True, "supported": lst, "second": second, "tracked": tracked}
+                if ctx.mine():
+                    exec_retry(ctx, case)
     for case in gen_cases(ctx):
         if not ctx.mine():
             continue
@@ -344,5 +437,8 @@ def run(ctx):
 
 
 def replay(ctx, case):
+    if case.get("retry"):
+        exec_retry(ctx, case)
+        return
     exec_case(ctx, case)
     ctx.record({"x": 1}, shape=1)
